@@ -327,6 +327,10 @@ fn scenario_pairs() -> Vec<(&'static str, &'static str, &'static str)> {
             "<svg><text xy=\"0\"><tspan>p</tspan>\n<tspan>q</tspan></text></svg>"),
         ("fractional-step/sixteenth", r##"<svg><loop count="3" loop-var="i" step="0.0625"><rect xy="{{$i * 160}} 0" wh="5"/></loop></svg>"##,
             r##"<svg><rect xy="{{0 * 160}} 0" wh="5"/><rect xy="{{0.0625 * 160}} 0" wh="5"/><rect xy="{{0.125 * 160}} 0" wh="5"/></svg>"##),
+        ("loop-variable-digits/large-start", r##"<svg><loop count="2" loop-var="i" start="100000000.1" step="1"><text xy="0" text="$i"/></loop></svg>"##,
+            r##"<svg><text xy="0" text="100000000.1"/><text xy="0" text="100000001.1"/></svg>"##),
+        ("loop-variable-digits/tiny-start", r##"<svg><loop count="1" loop-var="i" start="0.0000000001"><rect wh="{{$i * 10000000000}}"/></loop></svg>"##,
+            r##"<svg><rect wh="{{0.0000000001 * 10000000000}}"/></svg>"##),
         ("fractional-step/for-items", r##"<svg><for data="0.0625, 0.0004" var="v"><rect xy="{{$v * 10000}} 0" wh="5"/></for></svg>"##,
             r##"<svg><rect xy="{{0.0625 * 10000}} 0" wh="5"/><rect xy="{{0.0004 * 10000}} 0" wh="5"/></svg>"##),
     ]
